@@ -201,7 +201,7 @@ def replay_args(desc):
         return f[:10]
     if f[0] != "one":
         return None
-    if len(f) > 18 and f[18] in ("DECODE", "TRUNC", "DAMAGE", "INPLACE"):
+    if len(f) > 18 and f[18] in ("DECODE", "TRUNC", "DAMAGE", "INPLACE", "BUFLESS"):
         return f[:20]
     return f[:18]
 
@@ -698,7 +698,25 @@ def run(ctx):
     core.log("C06 phase units: %.1f s" % (time.time() - t0)); t0 = time.time()
 
     if ctx.tier == "thorough":
+        # two more seeds of the sweeps (direct oracle only)
+        for extra in (1, 2):
+            sd = ctx.seed + 1000 * extra
+            for mode in ("sweep", "stream"):
+                bads, faults = [], []
+                for rc, out, err in run_shards(sweep_exe, mode, sd, 1, min(16, core.NCPU), timeout=2400):
+                    if rc != 0:
+                        problems.append(dict(kind="%s-harness-exit" % mode, rc=rc, err=err[-300:]))
+                    bads += [l for l in out.split("\n") if l.startswith("BAD ")]
+                    faults += [l for l in out.split("\n") if l.startswith("FAULT ")]
+                    ctx.count(("extra-seed", mode, extra), nontrivial=True, n=max(1, out.count("\nCASE ") + out.count("\nSTREAM ")))
+                report_direct(ctx, sweep_exe, bads, faults, "extra-seed-" + mode)
         asan_pass(ctx, problems)
+        # independent re-check of the compiled theory by coqchk (kernel re-validation, lists axioms)
+        rc, out, err = core.sh(["timeout", "1500", "coqchk", "-silent", "-o", "-Q", ".", "ZV", "ZV.Props.Properties_C06"], cwd=core.COQ)
+        txt = " ".join((out + err).split())
+        ctx.notes["coqchk"] = "ok: axioms <none>" if (rc == 0 and "Axioms: <none>" in txt) else txt[-600:]
+        if rc != 0 or "Axioms: <none>" not in txt:
+            ctx.violation(dict(kind="coqchk", rc=rc, output=txt[-2000:]), what="coqchk does not validate Properties_C06 axiom-free", no_input=True)
 
     # tie / validation problems: a broken correspondence is not yet a violation -> SEARCH for a concrete failing input
     if problems:
